@@ -92,8 +92,8 @@ MatchAll(doc, p, v) ==
   LET f(field) ==
         IF v.t # "arr" THEN "E"
         ELSE IF v.a = <<>> THEN "F"
-        ELSE IF field.t = "arr" /\ \A i \in 1..Len(v.a) : \E j \in 1..Len(field.a) : Cmp(v.a[i], field.a[j]) = 0 THEN "T"
-        ELSE IF \A i \in 1..Len(v.a) : Cmp(field, v.a[i]) = 0 THEN "T"
+        ELSE IF \A i \in 1..Len(v.a) : \/ Cmp(field, v.a[i]) = 0           \* each value is the field itself or one of its elements
+                                         \/ (field.t = "arr" /\ \E j \in 1..Len(field.a) : Cmp(v.a[i], field.a[j]) = 0) THEN "T"
         ELSE "F"
   IN Unwind(doc, p, FALSE, TRUE, f)
 
